@@ -451,3 +451,13 @@ def kamstrup_body(list_ver, items, pads):
                 exp[name] = Num(Fraction(v))
         body += bytes(pad)
     return bytes(body), exp, is_ct
+
+
+def scribble(d):
+    """What a careless caller might do with a returned dictionary: results handed out earlier must not be shared with later ones."""
+    if isinstance(d, dict):
+        for k in list(d)[::2]:
+            d.pop(k)
+        for k in list(d):
+            d[k] = "scribbled"
+        d["scribbled-key"] = 1
